@@ -452,14 +452,20 @@ def memoize_when_activated(fun):
     @functools.wraps(fun)
     def wrapper(self):
         try:
-            # case 1: we previously entered oneshot() ctx
-            ret = self._cache[fun]
+            # Bind the cache dict once: another thread may leave the
+            # oneshot() ctx (and enter a new one) while we're in here;
+            # in that case whatever we store must not end up in the
+            # cache of a block which started after we fetched the value.
+            cache = self._cache
         except AttributeError:
             # case 2: we never entered oneshot() ctx
             try:
                 return fun(self)
             except Exception as err:  # noqa: BLE001
                 raise err from None
+        try:
+            # case 1: we previously entered oneshot() ctx
+            ret = cache[fun]
         except KeyError:
             # case 3: we entered oneshot() ctx but there's no cache
             # for this entry yet
@@ -467,12 +473,10 @@ def memoize_when_activated(fun):
                 ret = fun(self)
             except Exception as err:  # noqa: BLE001
                 raise err from None
-            try:
-                self._cache[fun] = ret
-            except AttributeError:
-                # multi-threading race condition, see:
-                # https://github.com/giampaolo/psutil/issues/1948
-                pass
+            # If the ctx was exited in the meantime (multi-threading,
+            # see https://github.com/giampaolo/psutil/issues/1948) this
+            # dict is no longer referenced and the value is dropped.
+            cache[fun] = ret
         return ret
 
     def cache_activate(proc):
